@@ -70,6 +70,15 @@ def run(chk):
                 depth=100, seed=seed + 1, timeout=1800)
     check_model(chk, r)
     all_cases += r.cases
+    # --- hash-derived identifiers: call sequences of spec/Id62Hash.tla (which results must agree, whatever was called before)
+    r = chk.tlc("Id62Hash.tla", "Id62Hash.cfg" if quick else "Id62Hash_t.cfg", "hash", workers=8, timeout=1800)
+    if r.violated or r.error:
+        chk.machinery_errors.append("Id62Hash: %s %s" % (r.violated, (r.error or "")[:300]))
+    hash_cases = r.cases
+    r.cases = []
+    hres = chk.replay("id62", hash_cases, "hash", timeout="30s")
+    chk.absorb("id62", hash_cases, hres)
+    chk.extra_cov["hash_call_sequences"] = len(hash_cases)
     chk.exhaustive = False
     # --- residual: raw random strings (outside the model's alphabet), parser totality only
     raw = []
